@@ -29,7 +29,7 @@ func init() {
 	core.Register(&core.Prop{
 		ID:    "C19",
 		Level: "exploration",
-		Rule: "a case is one SendRequest call against a scripted connection that, on PublishRequest, plays a schedule of pre-responses (valid timeout, unknown key, malformed value), responses (result, resource, error, invalid JSON, empty) and silences into the inbox channel and records the actual send instants; schedules are built in units of 40 ms with messages on whole units and deadlines on half units (margin 20 ms); the expected outcome (response, extension callbacks, return time) is computed by a reference simulation; a case whose actual instants came within 8 ms of a deadline is discarded as inconclusive, never failed; elapsed time is checked with wide tolerance only. Fault cases: marshal, subscribe and publish failures. On an embedded NATS server the client's subscription count must return to the baseline on every return path, and a real go-res service sending Timeout pre-responses is called end to end. distinct non-trivial = distinct schedules with at least one pre-response or >= 2 messages",
+		Rule:  "a case is one SendRequest call against a scripted connection that, on PublishRequest, plays a schedule of pre-responses (valid timeout, unknown key, malformed value), responses (result, resource, error, invalid JSON, empty) and silences into the inbox channel and records the actual send instants; schedules are built in units of 40 ms with messages on whole units and deadlines on half units (margin 20 ms); the expected outcome (response, extension callbacks, return time) is computed by a reference simulation; a case whose actual instants came within 8 ms of a deadline is discarded as inconclusive, never failed; elapsed time is checked with wide tolerance only. Fault cases: marshal, subscribe and publish failures. On an embedded NATS server the client's subscription count must return to the baseline on every return path, and a real go-res service sending Timeout pre-responses is called end to end. distinct non-trivial = distinct schedules with at least one pre-response or >= 2 messages",
 		Assumptions: []string{
 			"timing verdicts are only drawn from cases whose recorded send instants kept the margin to every deadline",
 		},
